@@ -53,7 +53,7 @@ Fixpoint le_num (l : list N) : N := match l with [] => 0 | b :: t => b + 256 * l
 Fixpoint be_num_acc (acc : N) (l : list N) : N := match l with [] => acc | b :: t => be_num_acc (acc * 256 + b) t end.
 Definition be_num := be_num_acc 0.
 Fixpoint le_bytes (n : nat) (v : N) : list N :=
-  match n with O => [] | S n' => (v mod 256) :: le_bytes n' (v / 256) end.
+  match n with O => [] | S n' => N.land v 255 :: le_bytes n' (N.shiftr v 8) end.
 Definition be_bytes (n : nat) (v : N) : list N := rev (le_bytes n v).
 
 (* finite maps N -> N used for probability tables and window buffers *)
